@@ -27,21 +27,27 @@ var GlobalValues map[string]r.Element
 
 // init function
 func init() {
+	globalValues = newGlobalValues()
 
+	GlobalValues = globalValues
+}
+
+// newGlobalValues - build a fresh set of predefined values.
+// Some of them are mutable (e.g. 数值 via 自增, 异常 via 如何新建异常？), so every
+// execution gets its own set instead of sharing one set in the whole process.
+func newGlobalValues() map[string]r.Element {
 	//// predefined values - those variables (symbols) are defined before
 	//// any execution procedure.
 	//// NOTICE: those variables are all constants!
-	globalValues = map[string]r.Element{
-		"真":    ZnConstBoolTrue,
-		"假":    ZnConstBoolFalse,
-		"空":    ZnConstNull,
-		"异常":   ZnConstExceptionClass,
-		"显示":   ZnConstDisplayFunc,
-		"取随机数": ZnConstGetRandomFloat,
+	return map[string]r.Element{
+		"真":    value.NewBool(true),
+		"假":    value.NewBool(false),
+		"空":    value.NewNull(),
+		"异常":   newExceptionModel(),
+		"显示":   newDisplayFunc(),
+		"取随机数": newGetRandomFloatFunc(),
 		"数值":   &value.Number{},
 	}
-
-	GlobalValues = globalValues
 }
 
 func newExceptionModel() *value.ClassModel {
